@@ -23,6 +23,23 @@ for _a, _b, _c in ((0, 1, 2), (1, 2, 0), (2, 0, 1)):
     EPS[_b, _a, _c] = -1
 
 
+def tab_average(E, thresh=1e-4, tie=1e-7):
+    """Tabulators (evaluate_k 'energy') report the *mean* energy of every group of bands whose consecutive gaps are
+    <= degen_thresh (=1e-4, documented 'degenerate bands are treated together').  Applies the same grouping to a sorted
+    reference spectrum; returns None when a gap is within `tie` of the threshold (grouping ambiguous)."""
+    E = np.array(E, dtype=float)
+    gaps = np.diff(E)
+    if np.any(np.abs(gaps - thresh) < tie):
+        return None
+    out = E.copy()
+    start = 0
+    for i in range(1, len(E) + 1):
+        if i == len(E) or gaps[i - 1] > thresh:
+            out[start:i] = E[start:i].mean()
+            start = i
+    return out
+
+
 def axis_of(theta, phi):
     return np.array([math.sin(theta) * math.cos(phi), math.sin(theta) * math.sin(phi), math.cos(theta)])
 
